@@ -359,10 +359,10 @@ func (e *c11Env) doSpawn(ctx context.Context, cl c11Call, in *c11Inst) (*PID, er
 // Terminated was never sent (an actor outside the tree, or the finding
 // stop-before-death-watch-registration) the count is never reached: then idle +
 // empty + an unchanged count for two seconds without interruption is accepted.
-func (e *c11Env) settle(postStops func() int64) bool {
+func (e *c11Env) settle(postStops func() int64) (ok, complete bool) {
 	dw := e.sys.getDeathWatch()
 	if dw == nil {
-		return true
+		return true, true
 	}
 	deadline := time.Now().Add(c11Cap)
 	var stableSince time.Time
@@ -371,20 +371,20 @@ func (e *c11Env) settle(postStops func() int64) bool {
 		n := dw.ProcessedCount()
 		idle := dw.schedState.Load() == dispatchIdle
 		if idle && int64(n) >= e.dwBase+postStops() {
-			return true
+			return true, true
 		}
 		if idle && n == last && dw.mailbox.IsEmpty() && dw.systemMailbox.IsEmpty() {
 			if stableSince.IsZero() {
 				stableSince = time.Now()
 			} else if time.Since(stableSince) > 2*time.Second {
-				return true
+				return true, false
 			}
 		} else {
 			stableSince = time.Time{}
 		}
 		last = n
 		if time.Now().After(deadline) {
-			return false
+			return false, false
 		}
 		time.Sleep(200 * time.Microsecond)
 	}
@@ -488,7 +488,7 @@ func c11Exec(x *vfkit.X, c c11Case) {
 	}
 
 	vfsched.SetNoise(c.NoiseSeed, c.NoiseProb, c.NoiseSleep)
-	inconclusive := false
+	inconclusive, unaccounted := false, false
 	for ri, rd := range c.Rounds {
 		start := make(chan struct{})
 		var wg sync.WaitGroup
@@ -556,8 +556,7 @@ func c11Exec(x *vfkit.X, c c11Case) {
 			// are still using the system); reported as inconclusive, never as a violation
 			x.Class("inconclusive_call_did_not_return")
 			vfsched.SetNoise(0, 0, 0)
-			<-done
-			return
+			return // the stuck goroutines are abandoned; the deferred Stop tears the system down
 		}
 		results = append(results, round...)
 		if ri == len(c.Rounds)-1 {
@@ -574,7 +573,7 @@ func c11Exec(x *vfkit.X, c c11Case) {
 			}
 		}
 		if rd.Settle || ri == len(c.Rounds)-1 {
-			if !e.settle(func() int64 {
+			if ok, complete := e.settle(func() int64 {
 				e.mu.Lock()
 				defer e.mu.Unlock()
 				var total int64
@@ -584,21 +583,23 @@ func c11Exec(x *vfkit.X, c c11Case) {
 					in.mu.Unlock()
 				}
 				return total
-			}) {
+			}); !ok {
 				inconclusive = true
 				x.Class("inconclusive_deathwatch_not_idle")
 				break
+			} else if !complete {
+				unaccounted = true
 			}
 		}
 	}
 	vfsched.SetNoise(0, 0, 0)
 
-	c11Judge(x, e, c, results, known, inconclusive)
+	c11Judge(x, e, c, results, known, inconclusive, unaccounted)
 }
 
 // ---- oracle --------------------------------------------------------------------------------
 
-func c11Judge(x *vfkit.X, e *c11Env, c c11Case, results []*c11Result, known, inconclusive bool) {
+func c11Judge(x *vfkit.X, e *c11Env, c c11Case, results []*c11Result, known, inconclusive, unaccounted bool) {
 	// history for the replay file
 	for _, r := range results {
 		who := ""
@@ -835,6 +836,7 @@ func c11Judge(x *vfkit.X, e *c11Env, c c11Case, results []*c11Result, known, inc
 	}
 	// O4: registry and counter agree with the live instances
 	lateWatch := 0
+	staleUnjudged := false
 	for n := range c11Names {
 		node, ok := e.sys.tree().node(e.ids[n])
 		if !ok {
@@ -870,10 +872,18 @@ func c11Judge(x *vfkit.X, e *c11Env, c c11Case, results []*c11Result, known, inc
 				lateWatch++
 				continue
 			}
+			if unaccounted {
+				// the death watch handled fewer Terminated messages than instances were
+				// stopped although it had been sent one (it is no longer listed as a
+				// watcher): a delivery matter, not judged here
+				x.Class("inconclusive_terminated_not_accounted_for")
+				staleUnjudged = true
+				continue
+			}
 			x.Failf("stopped-actor-registered-after-settle", "after the death watch went idle %s still resolves to the stopped instance %d (watchers of the node=%v; death watch: running=%v suspended=%v processed=%d)\n%s", c11Names[n], in.id, ws, dw.IsRunning(), dw.IsSuspended(), dw.ProcessedCount(), desc())
 		}
 	}
-	if got := e.sys.NumActors(); got != uint64(liveTotal+1) {
+	if got := e.sys.NumActors(); got != uint64(liveTotal+1) && !staleUnjudged {
 		// third symptom of F-C11-1: addNode fails on the stale node, the death watch
 		// removes it before attachAndPublish looks the canonical instance up, and the
 		// fresh instance is returned counted but unregistered (one count per such instance)
